@@ -129,3 +129,17 @@ Print Assumptions T07_ids.
 Theorem T07_defaults_independent : forall defs el, delivered true defs el = delivered false defs el.
 Proof. exact defaults_independent. Qed.
 Print Assumptions T07_defaults_independent.
+
+(** the same for documents with several element types, each with its own ATTLIST (the ID table is shared) *)
+Theorem T07_attrs_typed : forall e dm doc, attr_errors_t false e dm doc = [] <-> attrs_valid_t e dm doc.
+Proof. exact attrs_t_correct. Qed.
+Print Assumptions T07_attrs_typed.
+
+Theorem T07_oracle_attrs_typed : forall e dm doc, attrs_validb_t e dm doc = true <-> attrs_valid_t e dm doc.
+Proof. exact attrs_validb_t_correct. Qed.
+Print Assumptions T07_oracle_attrs_typed.
+
+Theorem T07_ids_typed : forall e dm doc doc', Permutation doc doc' ->
+  (attr_errors_t false e dm doc = [] <-> attr_errors_t false e dm doc' = []).
+Proof. exact ids_order_independent_t. Qed.
+Print Assumptions T07_ids_typed.
